@@ -185,6 +185,7 @@ gate parameters / a trailing frame expression -/
 def apiKind : Instruction → Bool
   | .gate _ | .setFrequency _ | .setPhase _ | .setScale _ | .shiftFrequency _ | .shiftPhase _
   | .delay _ | .capture _ | .pulse _ => true
+  | .call c => chainOk none c.arguments
   | .rawCapture r => r.memoryReference.name != "i"
   | i => plainKind i
 
@@ -234,6 +235,35 @@ theorem invOk_of_wellFormed (F : NumFmt) (w : WaveformInvocation) (hw : QV.C04.i
   simp only [Bool.and_eq_true] at this
   exact exprOk_finiteLits _ this.2
 
+theorem chainOk_of (a : UnresolvedCallArgument) (rest : List UnresolvedCallArgument)
+    (h : callNumberThenI (a :: rest) = false) : chainOk (some a) rest = true := by
+  induction rest generalizing a with
+  | nil => rfl
+  | cons b rest ih =>
+    cases a with
+    | immediate z =>
+      simp only [callNumberThenI, Bool.or_eq_false_iff] at h
+      simp only [chainOk, Bool.and_eq_true, Bool.not_eq_true']
+      refine ⟨?_, ih b h.2⟩
+      have h1 := h.1
+      cases b <;> simp_all [isRealImm, namedI]
+    | identifier s =>
+      simp only [callNumberThenI] at h
+      simp only [chainOk, Bool.and_eq_true, Bool.not_eq_true']
+      exact ⟨by simp [isRealImm], ih b h⟩
+    | memoryReference r =>
+      simp only [callNumberThenI] at h
+      simp only [chainOk, Bool.and_eq_true, Bool.not_eq_true']
+      exact ⟨by simp [isRealImm], ih b h⟩
+
+theorem chainOk_none_of (args : List UnresolvedCallArgument) (h : callNumberThenI args = false) :
+    chainOk none args = true := by
+  cases args with
+  | nil => rfl
+  | cons a rest =>
+    simp only [chainOk, Bool.and_eq_true, Bool.not_eq_true']
+    exact ⟨by simp [isRealImm], chainOk_of a rest h⟩
+
 /-- the per-kind lemmas, dispatched for API-built instructions -/
 theorem rt_of_apiKind (F : NumFmt) (d : Nat) (i : Instruction) (hw : wellFormed i = true)
     (hp : hasPlaceholder i = false) (hk : apiKind i = true) (hn : numTokInstr F i = true)
@@ -279,6 +309,22 @@ theorem rt_of_apiKind (F : NumFmt) (d : Nat) (i : Instruction) (hw : wellFormed 
     simp only [hasPlaceholder] at hp
     simp only [numTokInstr, Bool.and_eq_true] at hn
     exact rt_delay_norm F d dl (all_noPlaceholder_of _ hw.2 hp) (exprOk_finiteLits _ hw.1) hn.1 hn.2 hd
+  | call c =>
+    simp only [wellFormed, Bool.and_eq_true, Bool.not_eq_true'] at hw
+    simp only [numTokInstr] at hn
+    have hok : c.arguments.all (callArgOkP F) = true := by
+      rw [List.all_eq_true] at hn ⊢
+      intro a ha
+      have h1 := List.all_eq_true.mp hw.1.2 a ha
+      have h2 := hn a ha
+      cases a with
+      | immediate z =>
+        simp only [QV.C04.callArgOk, Bool.and_eq_true] at h1
+        simp only at h2
+        simp [callArgOkP, immOk, h1.1, h1.2, h2]
+      | _ => rfl
+    have := rt_call F d c hok (chainOk_none_of _ hw.2)
+    simpa [normInstr] using this
   | capture c =>
     simp only [wellFormed, Bool.and_eq_true] at hw
     simp only [hasPlaceholder] at hp
